@@ -438,6 +438,12 @@ class Registry:
         try:
             for nm, tn in zip(names, type_nodes):
                 t = parse_type(ast.unparse(tn))
+                if t[0] == "obj":
+                    # a quantifier over records binds ONE variable of the record's snapshot sort; its fields are the accessor terms
+                    c_ = eng.bv(nm, sort_of(t))
+                    vs.append(from_term(t, c_))
+                    consts.append(c_)
+                    continue
                 v = eng.bvar(nm, t)
                 vs.append(v)
                 consts += self.consts_of(v)
@@ -650,6 +656,8 @@ class Registry:
             return [(st, V(("list",), items["concrete"]))]
         elt = items["elt"]
         et = elt.t
+        if et[0] == "obj" and not isinstance(node.elt, ast.Call):
+            raise OutOfSubset("comprehension element is a record that is still reachable under a name (records are collected by value)")
         y = z3.Const(fresh_name("y"), sort_of(et))
         body = z3.Exists(items["consts"], z3.And(items["member"], y == to_term(elt)))
         arr = eng.mkset(st, [y], body)
@@ -957,7 +965,7 @@ class Registry:
             eng.bound = saved_bound
 
     def pure_fn_app(self, eng, c, cs, lineno):
-        scalar = ("bool", "str", "int", "node", "data", "bag", "set")
+        scalar = ("bool", "str", "int", "node", "data", "bag", "set", "obj")   # obj: a freshly built record, denoted by its snapshot term (vals.obj_sort)
         is_opt = c.returns is not None and c.returns[0] == "opt" and c.returns[1][0] in scalar
         in_comp = (not eng.spec) and bool(getattr(eng, "_comp_ctx", None))
         if c.modifies or (c.raises and not (in_comp or eng.spec)) or c.returns is None or not (c.returns[0] in scalar or is_opt):
@@ -998,14 +1006,14 @@ class Registry:
                 ps.old = dict(pvs)
                 consts = [k for v in pvs.values() for k in self.consts_of(v)]
                 app = fn(*[t for v in pvs.values() for t in self.flatten(v)])
-                eng.result = V(c.returns, app)
+                eng.result = from_term(c.returns, app) if c.returns[0] == "obj" else V(c.returns, app)
                 eng.qdepth = 91
                 req = zand(*[t for _, t in eng.spec_conj(c.requires, ps)] + [znot(t) for _, cond in c.raises for _, t in [(None, zand(*[t_ for _, t_ in eng.spec_conj([cond], ps)]))]])
                 ens = zand(*[t for _, t in eng.spec_conj(c.ensures, ps)])
                 eng.axioms_used[("pure", c.key)] = z3.ForAll(consts, z3.Implies(req, ens), patterns=[app]) if consts else z3.Implies(req, ens)
             finally:
                 eng.bound, eng.spec, eng.qdepth, eng.result = saved_bound, saved_spec, saved_q, saved_res
-        return V(c.returns, fn(*terms))
+        return from_term(c.returns, fn(*terms)) if c.returns[0] == "obj" else V(c.returns, fn(*terms))
 
     _pure_fns = {}
 
